@@ -119,7 +119,9 @@ Reopen ==
           /\ applied' = restored
           /\ lastStart' = [res |-> r.res, csH |-> csH, marker |-> marker, restoreOK |-> restoreOK]
           /\ lastRead' = IF r.res = "fail" THEN lastRead ELSE IdSeq(RecsOf(StrictAll(r.w, 0)))
-          /\ nreopen' = nreopen + 1 /\ openId' = NextId
+          \* a start-up that fails leaves the node down: nothing but the files changes
+          /\ nreopen' = IF r.res = "fail" THEN nreopen ELSE nreopen + 1
+          /\ openId' = IF r.res = "fail" /\ r.neh0 = 0 THEN openId ELSE NextId
           /\ act' = [name |-> "Reopen", csH |-> csH, rsy |-> rsy, res |-> r.res, precheck |-> r.precheck,
                      repaired |-> r.repaired, neh0 |-> r.neh0, replay |-> r.replay]
   /\ UNCHANGED <<pruned, excused, topH, crashApplied, crashH, lastPrune, ncrash, nstop, ncorrupt, nbig>>
